@@ -1,4 +1,4 @@
 SPECIFICATION Spec
-CONSTANTS NG = 2 Cap = 3 MaxSl = 2 MaxOps = 6 ZeroToCap = FALSE AllowShrink = FALSE
+CONSTANTS NG = 2 Cap = 3 MaxSl = 2 MaxOps = 6 ZeroToCap = FALSE AllowShrink = FALSE AllowGrow = FALSE ResizePutsOld = FALSE
 INVARIANTS NotBad
 CHECK_DEADLOCK FALSE
